@@ -1,3 +1,6 @@
+import json
+import os
+
 import vlib
 
 CFG = {
@@ -24,7 +27,9 @@ CFG = {
             "the grammar (1-5 sections, all four corner forms, uniform or mixed per group, usemtl/g in every "
             "arrangement, bare g, late v lines, comments, o/s lines, blank lines, CRLF, tabs / multiple spaces, "
             "extra w / third vt component, 1/8 corner tokens respelled (01, +1, 1//), 1/12 polygons or 2-corner "
-            "faces, 1/14 invalid index (0, out of range, negative), short v/vt/vn line or bare usemtl) through "
+            "faces, 1/14 invalid index (0, out of range, negative), short v/vt/vn line or bare usemtl; text layer: "
+            "last statement of every kind ended by LF / CRLF / lone CR / nothing, LF-CRLF mixes, leading and "
+            "trailing blanks, blank and comment lines anywhere, 65535-byte line, UTF-8 BOM, 117 fixed endings) through "
             "ReadMesh -> WriteMeshes -> ReadMesh; stream 3 (1/16): obj.Save -> obj.Load through the file system; "
             "distinct by input; non-trivial = at least one triangle and the first operation succeeded",
     "trusted": ["strconv.AppendFloat(…,'f',-1,64) followed by ParseFloat(…,32) yields float32(x) (false only at "
@@ -40,5 +45,24 @@ CFG = {
 }
 
 
+LONG_LINE_KEY = "obj:line-over-64KiB"
+
+
+def _long_lines_enabled():
+    """Legal lines longer than bufio.Scanner's 64 KiB token make HEAD's ReadMesh fail (finding, repair proposed in
+    fixes/C05-obj-long-lines.patch).  They are generated once known_findings.json lists the key (status known:
+    reported as KNOWN-FINDING; status fixed: the repaired reader must take them), or on request."""
+    if os.environ.get("C05_LONGLINES"):
+        return True
+    try:
+        data = json.load(open(os.path.join(vlib.VERIF, "known_findings.json")))
+        return any(e.get("key") == LONG_LINE_KEY for e in data.get("findings", []))
+    except Exception:
+        return False
+
+
 def main(argv):
-    return vlib.standard_check(CFG, argv)
+    cfg = dict(CFG)
+    if _long_lines_enabled():
+        cfg["extra_args"] = ["-longlines"]
+    return vlib.standard_check(cfg, argv)
